@@ -75,8 +75,24 @@ theorem adef_fold (todo done : List DefLine) (m : RMatrix) (hm : m.defs = done.m
       (fun x hx => hok x (List.mem_cons_of_mem _ hx))
     simpa using this
 
+theorem numericOk_map (m m' : RMatrix) (g : RDef → RDef)
+    (hg : ∀ d, (g d).level = d.level ∧ (g d).name = d.name ∧ (g d).definition = d.definition) (h : m'.defs = m.defs.map g)
+    (l : Level) (a v : Str) : numericOk m' l a v = numericOk m l a v := by
+  unfold numericOk
+  rw [h, List.find?_map]
+  have hp : ((fun d : RDef => d.level == l && d.name == a) ∘ g) = fun d : RDef => d.level == l && d.name == a := by
+    funext d; simp [(hg d).1, (hg d).2.1]
+  rw [hp]
+  cases List.find? (fun d : RDef => d.level == l && d.name == a) m.defs with
+  | none => rfl
+  | some d => simp only [Option.map_some, (hg d).2.2]
+
+/-- all four levels accept the default -/
+def defaultOk (m : RMatrix) (dd : DefDefLine) : Bool :=
+  [Level.signal, Level.frame, Level.ecu, Level.global].all fun l => numericOk m l dd.name dd.value
+
 /-- `BA_DEF_DEF_` lines: every definition of that name (environment variables aside) takes the value; the last line wins -/
-theorem defdef_fold (dds : List DefDefLine) (m : RMatrix) :
+theorem defdef_fold (dds : List DefDefLine) (m : RMatrix) (hok : ∀ dd ∈ dds, defaultOk m dd = true) :
     (dds.map fun d => Item.defdef d.name d.value).foldl applyItem m =
       { m with defs := m.defs.map fun d =>
           { d with default := dds.foldl (fun acc dd => if d.name == dd.name && d.level != .env then some dd.value else acc) d.default } } := by
@@ -84,13 +100,28 @@ theorem defdef_fold (dds : List DefDefLine) (m : RMatrix) :
   | nil => simp
   | cons dd rest ih =>
     simp only [List.map_cons, List.foldl_cons]
-    rw [ih]
-    simp only [applyItem, Item.frameNo, applyCore, List.map_map]
-    congr 1
-    apply List.map_congr_left
-    intro d _
-    simp only [Function.comp_apply]
-    split <;> rfl
+    have hstep : applyItem m (.defdef dd.name dd.value) =
+        { m with defs := m.defs.map fun d => if d.name == dd.name && d.level != .env then { d with default := some dd.value } else d } := by
+      have e1 : applyItem m (.defdef dd.name dd.value) = applyCore m (.defdef dd.name dd.value) := rfl
+      have h := hok dd (by simp)
+      unfold defaultOk at h
+      rw [e1]
+      simp only [applyCore, h, if_true]
+    rw [hstep, ih]
+    · simp only [List.map_map]
+      congr 1
+      apply List.map_congr_left
+      intro d _
+      simp only [Function.comp_apply]
+      split <;> rfl
+    · intro x hx
+      have := hok x (List.mem_cons_of_mem _ hx)
+      unfold defaultOk at this ⊢
+      rw [List.all_eq_true] at this ⊢
+      intro l hl
+      rw [numericOk_map m _ (fun d => if d.name == dd.name && d.level != .env then { d with default := some dd.value } else d)
+        (by intro d; split <;> exact ⟨rfl, rfl, rfl⟩) rfl]
+      exact this l hl
 
 theorem numericOk_defs (m m' : RMatrix) (h : m'.defs = m.defs) (l : Level) (a v : Str) : numericOk m' l a v = numericOk m l a v := by
   unfold numericOk; rw [h]
@@ -303,7 +334,21 @@ theorem ecusA (es : List WEcu) (hnd : (es.map (·.name)).Nodup) (ps : List (WFra
   simp
 
 /-- the matrix after the attribute statements -/
+theorem wfDefaults_wf (ds : List DefLine) (dds : List DefDefLine) (h : wfDefaults ds dds = true) : ∀ d ∈ dds, wfDefDef d = true := by
+  intro d hd
+  simp only [wfDefaults, List.all_eq_true, Bool.and_eq_true] at h
+  exact (h d hd).1
+
+theorem wfDefaults_ok (ds : List DefLine) (dds : List DefDefLine) (h : wfDefaults ds dds = true) :
+    ∀ dd ∈ dds, defaultOk { defs := ds.map toRDef } dd = true := by
+  intro d hd
+  simp only [wfDefaults, List.all_eq_true, Bool.and_eq_true] at h
+  unfold defaultOk
+  rw [List.all_eq_true]
+  exact (h d hd).2
+
 theorem stateB (es : List WEcu) (hnd : (es.map (·.name)).Nodup) (ds : List DefLine) (hds : wfDefs ds = true) (dds : List DefDefLine)
+    (hddn : ∀ dd ∈ dds, defaultOk { defs := ds.map toRDef } dd = true)
     (ga : List (Str × Str)) (hga : wfAttrs (expectDefs ds dds) .global .global ga = true)
     (hea : ∀ e ∈ es, wfAttrs (expectDefs ds dds) .ecu (.ecu e.name) e.attrs = true)
     (m : RMatrix) (hdefs : m.defs = []) (hattrs : m.attrs = []) (hecus : m.ecus = es.map WEcu.expect) :
@@ -316,7 +361,13 @@ theorem stateB (es : List WEcu) (hnd : (es.map (·.name)).Nodup) (ds : List DefL
     simpa using this
   have h2 : (dds.map fun d => Item.defdef d.name d.value).foldl applyItem { m with defs := ds.map toRDef } =
       { m with defs := expectDefs ds dds } := by
-    rw [defdef_fold]
+    rw [defdef_fold _ _ (by
+      intro dd hdd
+      have := hddn dd hdd
+      unfold defaultOk at this ⊢
+      rw [List.all_eq_true] at this ⊢
+      intro l hl
+      exact (numericOk_defs { defs := ds.map toRDef } { m with defs := ds.map toRDef } rfl _ _ _).trans (this l hl))]
     simp only [List.map_map, expectDefs]
     congr 1
   have h3 : (es.flatMap fun e => e.attrs.map fun kv => Item.ba ⟨kv.1, .ecu e.name, kv.2⟩).foldl applyItem
@@ -397,7 +448,7 @@ theorem fold_pending (its : List Item) (m : RMatrix) (hm : m.pending = none) (h 
 
 /-- **The core round trip with ECUs, attribute definitions, defaults and the attributes of the ECUs and of the matrix.** -/
 theorem roundtrip_coreD (es : List WEcu) (hes : wfEcus es = true) (ds : List DefLine) (hds : wfDefs ds = true)
-    (dds : List DefDefLine) (hdds : ∀ d ∈ dds, wfDefDef d = true)
+    (dds : List DefDefLine) (hdds : wfDefaults ds dds = true)
     (ga : List (Str × Str)) (hga : wfAttrs (expectDefs ds dds) .global .global ga = true)
     (hea : ∀ e ∈ es, wfAttrs (expectDefs ds dds) .ecu (.ecu e.name) e.attrs = true)
     (ps : List (WFrame × (Nat × Bool))) (hwf : ∀ p ∈ ps, p.1.wf p.2 = true) (hdist : ps.Pairwise fun p q => p.2 ≠ q.2) :
@@ -472,7 +523,7 @@ theorem roundtrip_coreD (es : List WEcu) (hes : wfEcus es = true) (ds : List Def
     rcases kindsA es ps _ hit with h | h
     · simp [itemFrameUpd] at h
     · simp [isEcuItem] at h
-  have h2 := stateB es hnd ds hds dds ga hga hea m1 h1d.1 h1d.2 h1e
+  have h2 := stateB es hnd ds hds dds (wfDefaults_ok ds dds hdds) ga hga hea m1 h1d.1 h1d.2 h1e
   generalize hm2d : (itemsB es ds dds ga).foldl applyItem m1 = m2 at h2
   have h1keys : m1.frames.map (·.key) = ps.map (·.2) := by
     rw [h1f, List.map_map, ← hAkeys]
@@ -504,7 +555,7 @@ theorem roundtrip_coreD (es : List WEcu) (hes : wfEcus es = true) (ds : List Def
         · simp only [wfCmHead]; exact this.1.1
         · simpa using this.2
   have hokB : okFile m1 (stmtsB es ds dds ga) = true :=
-    okFile_ones _ (stmtsB_ones es ds hds dds hdds _ ga hga hea) m1
+    okFile_ones _ (stmtsB_ones es ds hds dds (wfDefaults_wf ds dds hdds) _ ga hga hea) m1
   have hokC : okFile m2 (stmtsC (ps.map (·.1))) = true := by
     apply okFile_staticE _ m2 hu2
     intro s hs
